@@ -268,6 +268,7 @@ def _run(case, obs, keep_re):
                 "state": str(RE.state),
                 "seg": seg["i"],
                 "handle": loop.count,
+                "total": loop.total,
                 "vtime": loop.time(),
             }
         )
@@ -287,6 +288,67 @@ def _run(case, obs, keep_re):
 
     RE.msg_hook = msg_hook
     RE.state_hook = state_hook
+
+    # "suspender": a real bluesky.suspenders class installed on the engine, watching a minimal ophyd-like signal
+    susp = {}
+    obs.sigputs = []
+    sp = reopts.get("suspender")
+    if sp:
+        import bluesky.suspenders as bsus
+
+        class _SuspSig:
+            def __init__(self, name, value):
+                self.name = name
+                self._value = value
+                self._subs = []
+
+            def get(self):
+                return self._value
+
+            value = property(get)
+
+            def subscribe(self, cb, event_type=None, run=True):
+                self._subs.append(cb)
+                if run:
+                    cb(value=self._value, old_value=self._value, timestamp=0.0, obj=self, sub_type="value")
+                return len(self._subs)
+
+            def clear_sub(self, cb, event_type=None):
+                self._subs = [c for c in self._subs if c is not cb]
+
+            def put(self, v):
+                old, self._value = self._value, v
+                for cb in list(self._subs):
+                    cb(value=v, old_value=old, timestamp=0.0, obj=self, sub_type="value")
+
+        susp["sig"] = _SuspSig("beam", sp.get("initial", 0))
+        susp["obj"] = getattr(bsus, sp["cls"])(susp["sig"], sleep=float(sp.get("sleep", 0.0)), **(sp.get("kwargs") or {}))
+        RE.install_suspender(susp["obj"])
+
+        # Signal updates are delivered on the loop thread at a chosen callback boundary (deterministic).  The
+        # suspender hops to the loop thread to create its asyncio.Event and waits for that with a real-time
+        # budget; when it already *is* on the loop thread the hop is made in place.
+        class _Handle:
+            def cancel(self):
+                pass
+
+        class _LoopProxy:
+            def __getattr__(self, name):
+                return getattr(loop, name)
+
+            def call_soon_threadsafe(self, fn, *args):
+                if getattr(fn, "__name__", "") == "really_make_the_event":
+                    fn(*args)
+                    return _Handle()
+                return loop.call_soon_threadsafe(fn, *args)
+
+        class _REProxy:
+            _loop = _LoopProxy()
+
+            def __getattr__(self, name):
+                return getattr(RE, name)
+
+        susp["obj"].RE = _REProxy()
 
     obs.cb_docs = []
     obs.cb2_docs = []
@@ -353,6 +415,10 @@ def _run(case, obs, keep_re):
                     rec["release"]()
             elif do == "put":
                 world.devices[inj["sig"]].put(inj["value"])
+            elif do == "sigput":
+                # an update of the signal watched by the installed (real) suspender (see _REProxy below)
+                obs.sigputs.append({"value": inj["value"], "hook_index": len(obs.hook), "total": loop.total, "vtime": loop.time(), "state": str(RE.state)})
+                susp["sig"].put(inj["value"])
             else:
                 raise ValueError(do)
 
